@@ -130,7 +130,7 @@ def internal_case(ctx):
         for msg, det in P.judge_split(before, pairs, args[0], exact, exc)[:1]:
             case.violate("split (called by an operator): " + msg, pairs=[[i, str(n)] for i, n in pairs], **det)
 
-    mon.attach(jc.JordanCurve, "split", pre=pre, post=post, label="JordanCurve.split")
+    mon.attach_path(jc, "JordanCurve", "split", pre=pre, post=post, label="JordanCurve.split")
     try:
         ops = ["or", "and", "sub", "xor"]
         if G.spec_is_curved(sa) or G.spec_is_curved(sb):
